@@ -163,6 +163,7 @@ var modellingAssumptions = []string{
 	"append returns a fresh backing array (no aliasing with the old slice); memory exhaustion and stack depth are ignored; no string or slice is longer than 2^62 elements",
 	"fresh objects: allocation (and the initialising stores into an object before it escapes its basic block) is modelled as an assumption on the current heap instead of a heap update; sound because no pointer to the object existed before",
 	"goroutines, channels, select, recover, unsafe, floating point are outside the subset: a function using them is rejected, not approximated",
+	"package-level error values of other packages (io.EOF, io.ErrUnexpectedEOF, ...) are constant, non-nil and pairwise distinct; errors made by fmt.Errorf/errors.New differ from all of them",
 }
 
 func runCheck(o *Options) int {
